@@ -252,7 +252,7 @@ static void map_monitor(Report & rep)
     smooth::Map<G> m(A.view());
     const int nops = 3 + r.below(8);
     for (int k = 0; k < nops; ++k) {
-      const int op  = r.below(8);
+      const int op  = r.below(10);
       int lo = 0, hi = R;  // range the call may write (relative to the view)
       std::string name;
       switch (op) {
@@ -314,6 +314,26 @@ static void map_monitor(Report & rep)
           name         = "coeffs()=";
           break;
         }
+        case 8: {
+          // the right operand is (a view of) the destination itself: value semantics = operand read before the write
+          const G cp = val;
+          val *= cp;
+          switch (r.below(3)) {
+            case 0: { smooth::Map<const G> same(A.view()); m *= same; name = "*=constmap_of_self"; break; }
+            case 1: { smooth::Map<G> same(A.view()); m *= same; name = "*=map_of_self"; break; }
+            default: m *= m; name = "*=self";
+          }
+          break;
+        }
+        case 9: {
+          switch (r.below(4)) {
+            case 0: m = m * m; val = val * val; name = "=self*self"; break;
+            case 1: m = m.inverse(); val = val.inverse(); name = "=self.inverse"; break;
+            case 2: { smooth::Map<const G> same(A.view()); m = same; name = "=constmap_of_self"; break; }
+            default: { smooth::Map<const G> same(A.view()); m = same * m; val = val * val; name = "=constmap_of_self*self"; }
+          }
+          break;
+        }
         default: {
           // a write through a sub-part view: only its own sub-range may change
           int count = 0;
@@ -349,6 +369,47 @@ static void map_monitor(Report & rep)
       A.poison();
     }
     A.unpoison();
+  });
+
+  // ---- in-place composition whose operand partially overlaps the destination (two views of one buffer, shifted)
+  rep.run_stream(T + ".overlap", NQ(rep, 300, 10000), [&](Rng & r, long idx) {
+    std::vector<S> buf(size_t(3 * R + 2));
+    const int a = R + 1, sh = 1 + r.below(R);  // destination at a, operand at a-sh or a+sh (|shift| <= R)
+    const int b = r.coin() ? a - sh : a + sh;
+    // valid elements at both places where possible (the later write wins in the shared part), else raw contents
+    const Vec ca = gen_coeffs<S>(l, r, am[r.below(7)], r.below(4)), cb = gen_coeffs<S>(l, r, am[r.below(7)], r.below(4));
+    for (auto & x : buf) x = S(r.sym());
+    const bool a_last = r.coin();
+    if (a_last) {
+      for (int i = 0; i < R; ++i) buf[size_t(b + i)] = S(cb(i));
+      for (int i = 0; i < R; ++i) buf[size_t(a + i)] = S(ca(i));
+    } else {
+      for (int i = 0; i < R; ++i) buf[size_t(a + i)] = S(ca(i));
+      for (int i = 0; i < R; ++i) buf[size_t(b + i)] = S(cb(i));
+    }
+    const std::vector<S> before = buf;
+    G va, vb;
+    for (int i = 0; i < R; ++i) { va.coeffs()(i) = buf[size_t(a + i)]; vb.coeffs()(i) = buf[size_t(b + i)]; }
+    const std::string st = "shift=" + std::string(b < a ? "-" : "+") + (sh == R ? "R" : sh == 1 ? "1" : "mid");
+    auto det = [&]() {
+      return JObj().str("type", T).raw("dest", hexv(toL(va.coeffs()))).raw("operand", hexv(toL(vb.coeffs()))).integer("shift", b - a).done();
+    };
+    rep.note_input(Report::hash_vec(toL(va.coeffs()), Report::hash_vec(toL(vb.coeffs()), uint64_t(b - a + 100))), true);
+    smooth::Map<G> m(buf.data() + a);
+    const bool cm = idx % 2 == 0;
+    if (cm) { smooth::Map<const G> o(buf.data() + b); m *= o; } else { smooth::Map<G> o(buf.data() + b); m *= o; }
+    G want = va;
+    want *= vb;
+    bool fin = true;
+    for (int i = 0; i < R; ++i) fin = fin && std::isfinite(double(want.coeffs()(i)));
+    if (!fin) { rep.count("C16.overlap.nonfinite_skipped"); return; }
+    Eigen::Matrix<S, R, 1> now;
+    for (int i = 0; i < R; ++i) now(i) = buf[size_t(a + i)];
+    rep.judge(T + ".overlap.*=" + (cm ? "constmap" : "map"), st, ulps<S>(toL(now), toL(want.coeffs())), 4, det);
+    int dmg = 0;
+    for (int i = 0; i < int(buf.size()); ++i)
+      if ((i < a || i >= a + R) && std::memcmp(&buf[size_t(i)], &before[size_t(i)], sizeof(S)) != 0) ++dmg;
+    rep.judge(T + ".overlap.writes_only_own_range", st, dmg, 0, det);
   });
 
   // ---- const views on read-only pages flush against inaccessible pages
